@@ -80,6 +80,9 @@ func mkHandle(kind string, def []byte, values []interface{}) *handle {
 
 // deepCopy gives every call its own instance (validators must not keep state, instances must not be shared)
 func deepCopy(v interface{}) interface{} {
+	if n, ok := v.(json.Number); ok {
+		return n
+	}
 	b, _ := json.Marshal(v)
 	var out interface{}
 	_ = json.Unmarshal(b, &out)
@@ -166,6 +169,25 @@ func driveLongLived(args []string) error {
 			vals = []interface{}{nil, map[string]interface{}{"a": "2020-01-01", "b": "x"}, map[string]interface{}{"a": "nope", "b": "2020-01-01"},
 				map[string]interface{}{"a": trapString}, map[string]interface{}{"b": trapString, "a": nil}, map[string]interface{}{"a": 5.0}}
 		}
+		handles = append(handles, mkHandle("schema", []byte(st), vals))
+	}
+	// several format-bearing properties next to a nested object: the reused validator must keep asserting every format
+	{
+		st := `{"type":"object","properties":{"d":{"type":"string","format":"date"},"e":{"type":"string","format":"email"},"n":{"type":"object","properties":{"x":{"type":"string","format":"uuid"},"y":{"type":"integer","maximum":5}}},"k":{"type":"integer"}}}`
+		vals := []interface{}{
+			map[string]interface{}{"d": "2020-01-01", "e": "a@b.co", "n": map[string]interface{}{"x": "a8098c1a-f86e-11da-bd1a-00112444be1e", "y": 3.0}, "k": 1.0},
+			map[string]interface{}{"d": "yesterday", "e": "a@b.co", "n": map[string]interface{}{"x": "a8098c1a-f86e-11da-bd1a-00112444be1e"}},
+			map[string]interface{}{"d": "2020-01-01", "e": "not-an-email", "n": map[string]interface{}{"y": 9.0}},
+			map[string]interface{}{"n": map[string]interface{}{"x": "not-a-uuid", "y": 1.0}, "k": 2.0, "d": "2020-01-01"},
+			map[string]interface{}{"e": "a@b.co", "k": "x"},
+			map[string]interface{}{"d": "nope", "e": "nope", "n": map[string]interface{}{"x": "nope"}},
+		}
+		handles = append(handles, mkHandle("schema", []byte(st), vals), mkHandle("schema", []byte(st), vals))
+	}
+	// numbers carried as json.Number, mixed with plain strings (the validator converts them according to the declared type)
+	for _, st := range []string{`{"type":"number","maximum":10}`, `{"type":"integer","minimum":2,"multipleOf":2}`, `{"type":["number","string"],"maximum":10,"maxLength":2}`,
+		`{"anyOf":[{"type":"number","maximum":10},{"type":"string","maxLength":2}]}`} {
+		vals := []interface{}{json.Number("5"), json.Number("50"), "abc", json.Number("4"), "ab", json.Number("2.5")}
 		handles = append(handles, mkHandle("schema", []byte(st), vals))
 	}
 	for i := 0; i < *nh; i++ {
